@@ -14,6 +14,18 @@ From BB Require Import BN Brute SpaceFacts TrapFacts PercolateFacts AttractorFac
   Strict PetriNet Control Meta FilterFacts PetriNetFacts TrappistFacts DiagramStruct DiagramSem1 DiagramCache
   DiagramDepth DiagramComplete Termination ControlFacts MetaFacts Candidates StrictFacts MinExpandFacts CandidatesFacts SymbolicTest SymbolicTestFacts Signed ReductionFacts ControlFacts2 Main Blocks BlocksFacts ObsFacts OwnerFacts CandidatesTerm
   PartialOwner BlockMath BlockComplete ASeeds ASeedsFacts LogChecks SkipRule SkipRuleFacts Names NamesFacts Perm PermFacts SCC SCCFacts SCCStruct ControlFacts3 SCCTerm FilterSym Main2 StrategyFacts ControlFacts4 SkipRuleFacts2 SCCComplete SCCAttr BlockComplete2 ControlFacts5 Iso SkipSem ControlFacts6.
+From BB Require Import PyLib PyLibSd PySrcSdBase PySrcSd PySrcSdFacts PyLibCore PySrcCore PySrcCoreFacts.
+
+(* translator tie: the text of _expand_one_node (which sorts the solver answer by space_unique_key before creating nodes) computes the model's expand_one, a function of the network, the configuration and the diagram only: node ids, edges and motif order cannot depend on hash seeds or on other diagrams *)
+Theorem C19_source_expand_one_node_is_a_function_of_the_diagram : forall (fuel : nat) (N : net) (cfg : config) (pnc : nat -> bool) (w : pyst) (i : nat), CoreInv N w -> i < size (p_sd w) -> 1 <= max_motifs cfg -> S (size (fst (expand_one N cfg (p_sd w) i))) < fuel -> exists w' : pyst, p_sd w' = fst (expand_one N cfg (p_sd w) i) /\ CoreInv N w' /\ match snd (expand_one N cfg (p_sd w) i) with | RUnit => py_expand_one_node fuel N cfg pnc w i = CRet w' Datatypes.tt \/ py_expand_one_node fuel N cfg pnc w i = CNext w' Datatypes.tt | RBool b => py_expand_one_node fuel N cfg pnc w i = CRaise w' (RBool b) | RNat k => py_expand_one_node fuel N cfg pnc w i = CRaise w' (RNat k) | RIds l => py_expand_one_node fuel N cfg pnc w i = CRaise w' (RIds l) | RRaised e => py_expand_one_node fuel N cfg pnc w i = CRaise w' (RRaised e) | RFuel => py_expand_one_node fuel N cfg pnc w i = CRaise w' RFuel end.
+Proof. exact py_expand_one_node_spec. Qed.
+
+(* ... likewise the traversal order of expand_bfs / expand_dfs (successors are sorted) *)
+Theorem C19_source_expand_bfs_is_a_function_of_the_diagram : forall (fuel : nat) (N : net) (cfg : config) (d : sd) (start level_limit size_limit : option nat), py_expand_bfs fuel N cfg d start level_limit size_limit = expand_bfs fuel N cfg d start level_limit size_limit.
+Proof. exact py_expand_bfs_spec_all. Qed.
+
+Theorem C19_source_expand_dfs_is_a_function_of_the_diagram : forall (fuel : nat) (N : net) (cfg : config) (d : sd) (start stack_limit size_limit : option nat), py_expand_dfs fuel N cfg d start stack_limit size_limit = expand_dfs fuel N cfg d start stack_limit size_limit.
+Proof. exact py_expand_dfs_spec_all. Qed.
 
 Theorem C19_percolation_order_independent : forall (N : net) (S : list (option bool)) (P P' : space), length S = nvars N -> is_percolation N S P -> is_percolation N S P' -> P = P'.
 Proof. exact percolation_unique. Qed.
@@ -36,6 +48,9 @@ Proof. exact space_key_inj. Qed.
 Theorem C19_find_node_exact : forall (N : net) (d : sd) (X : list (option bool)) (i : nat), SWF N d -> length X = nvars N -> find_node d X = Some i <-> i < size d /\ n_space (get d i) = X.
 Proof. exact find_node_exact. Qed.
 
+Print Assumptions C19_source_expand_one_node_is_a_function_of_the_diagram.
+Print Assumptions C19_source_expand_bfs_is_a_function_of_the_diagram.
+Print Assumptions C19_source_expand_dfs_is_a_function_of_the_diagram.
 Print Assumptions C19_percolation_order_independent.
 Print Assumptions C19_strict_order_independent.
 Print Assumptions C19_strict_fuel.
